@@ -12,8 +12,8 @@
   payload) under the assumption that bytes which are not the complete object never pass a checksum.
 
   Mirrored order of `open_locked`: header decode → `read_toc` through the header pointer → on failure
-  `recover_toc` = highest valid commit footer in the file (the hinted-decode and legacy fall-backs are
-  taken to fail) → `ensure_non_overlapping_frames` → `EmbeddedWal::open` scan → `recover_wal` replay of
+  `recover_toc` = highest valid commit footer in the file, else a complete TOC at the very end of the
+  file (legacy checksum scan; the hinted decode of a cut-off TOC is taken to fail) → `ensure_non_overlapping_frames` → `EmbeddedWal::open` scan → `recover_wal` replay of
   the records with `seq > header.wal_sequence` (frame id = position in the frame table) → eager loads
   of the tracks the TOC points to (sketch track).
 -/
@@ -145,19 +145,21 @@ def footerCandidates (env : Env) (img : List Cell) : List Nat :=
 def scanFooter (env : Env) (g : Geo) (img : List Cell) : Option (Nat × TocS) :=
   (footerCandidates env img).findSome? (footerAt env g img)
 
-/-- the hinted fall-back of `recover_toc`: no valid footer anywhere, but the bytes from the header's
-    pointer to the end of the file are exactly one complete TOC (its footer was never written).  The
-    code decodes `[hint, len - 56)`; observed on the real code: the cut-off TOC decodes as one of the
-    legacy layouts with the same frame table and without the trailing track manifests (empirical
-    part of the model — validated by the correspondence run only). -/
-def hintedToc (env : Env) (img : List Cell) (hint : Nat) : Option (Nat × TocS × Bool) :=
-  match img[hint]? with
-  | some (tid, 0) =>
+/-- the legacy fall-back of `recover_toc` (`scan_range_for_toc`): no valid footer anywhere, but the
+    file ENDS with one complete TOC (its footer was never written).  A TOC carries its own checksum in
+    its last 32 bytes (`prepare_toc_bytes`), which is exactly what the legacy scan tests on
+    `data[offset..]` — so the complete TOC at the end of the file is found at whatever offset it
+    starts (observed on the real code at crash points between the TOC write and the footer write). -/
+def tailToc (env : Env) (img : List Cell) : Option (Nat × TocS × Bool) :=
+  match img.getLast? with
+  | some (tid, k) =>
     match env tid with
     | some (.toc t) =>
-      if hint + t.len = img.length ∧ intactAt img hint tid t.len then some (hint, { t with segs := [] }, true) else none
+      if k + 1 = t.len ∧ t.len ≤ img.length ∧ intactAt img (img.length - t.len) tid t.len then
+        some (img.length - t.len, t, true)
+      else none
     | _ => none
-  | _ => none
+  | none => none
 
 /-- `ensure_non_overlapping_frames`: payload ranges inside the file, pairwise disjoint -/
 def framesOk (fileLen : Nat) (fs : List FrameS) : Bool :=
@@ -204,8 +206,10 @@ def replay (fs : List FrameS) (cursor : Nat) (m : List (Nat × Nat)) : List (Nat
 def childrenOk (fs : List FrameS) (i : Nat) (f : FrameS) : Bool :=
   f.need = 0 || (fs.filter (fun c => c.parent = some i)).length ≥ f.need
 
-/-- what a reopened memory shows: per frame its status and whether its payload is readable
-    (`replayed` frames come out of checksummed log records: readable) -/
+/-- what a reopened memory shows: per frame its status and whether its payload is readable.  For
+    frames that come out of replayed log records the flag only says that the document's chunks are
+    complete: where the in-place replay puts their payloads (and whether a later replay overwrites
+    them) is not modelled — the driver prints `?` for them. -/
 structure Shown where
   status : Nat
   sum : Nat
@@ -214,7 +218,8 @@ deriving Repr, DecidableEq
 
 inductive Outcome where
   | fail (f : Fail)
-  | ok (frames : List Shown) (replayed : Nat) (viaScan : Bool)
+  /-- `committed` = number of frames the TOC listed (the rest came out of replayed log records) -/
+  | ok (frames : List Shown) (replayed : Nat) (viaScan : Bool) (committed : Nat)
 deriving Repr, DecidableEq
 
 def recover (env : Env) (g : Geo) (img : List Cell) : Outcome :=
@@ -229,7 +234,7 @@ def recover (env : Env) (g : Geo) (img : List Cell) : Outcome :=
           | some (_, t) => some (h.footerOff, t, false)
           | none => match scanFooter env g img with
                     | some (o, t) => some (o, t, true)
-                    | none => hintedToc env img h.footerOff
+                    | none => tailToc env img
         match found with
         | none => .fail .toc
         | some (footerOff, t, viaScan) =>
@@ -250,14 +255,14 @@ def recover (env : Env) (g : Geo) (img : List Cell) : Outcome :=
                       { status := f.status, sum := f.sum,
                         readable := f.status ≠ 0 ||
                           (childrenOk fs i f && (i ≥ committed || f.len = 0 || intactAt img f.off f.sum f.len)) }))
-                    pending.length viaScan
+                    pending.length viaScan committed
     | _ => .fail .header
   | _ => .fail .header
 
 /-- the frame table a client sees (what C02/C04 compare) -/
 def Outcome.logical : Outcome → Option (List Shown)
   | .fail _ => none
-  | .ok fs _ _ => some fs
+  | .ok fs _ _ _ => some fs
 
 /-! ### writing symbolic objects (the `β := Cell` instance of the Disk machine) -/
 
